@@ -25,6 +25,7 @@ class Spec:
     def nontrivial(self, case, impl): return True
     def extra_obligations(self, build): return []    # list of (name, ok, detail)
     def search_tier(self): return "thorough"
+    def extra_stage(self, tier, seed): return None   # dict(obligations, failures, evaluations, coverage) of a property-specific stage
 
 def run_cases(spec, cases, tag):
     impl, model, errors = core.run_both(cases, f"{spec.pid}_{tag}", impl_env=spec.impl_env, need_model=spec.need_model)
@@ -124,6 +125,18 @@ def main(spec, tier, seed):
         elif k["status"] == "fixed" and hit:
             p = core.write_replay(pid, f"regressed-{k['id']}", wit[0])
             violations.append((p, ""))
+    # 3b. property-specific stage (e.g. crash-point enumeration)
+    extra_cov = {}; printed_known = set()
+    if res is not None:
+        extra = spec.extra_stage(tier, seed)
+        if extra:
+            obligations += extra.get("obligations", [])
+            broken = [o for o in obligations if not o[1]]
+            failures += extra.get("failures", []); evaluations += extra.get("evaluations", 0)
+            extra_cov = extra.get("coverage", {})
+            for k in known:
+                if k["status"] == "known" and any(f.cls == k["class"] for f in extra.get("failures", [])) and not [c for n, c in corpus if n == k.get("witness")]:
+                    print(f"KNOWN-FINDING: property={pid} {k['what']}")
     # 4. search when a tie is broken
     searched = False
     if (broken or disagreements) and not [f for f in failures if f.cls not in known_classes] and res is not None:
@@ -140,7 +153,7 @@ def main(spec, tier, seed):
     for f in new_fail:
         if f.cls in reported: continue
         reported.add(f.cls)
-        small = shrink_failure(spec, f.case, f.cls)
+        small = f.case if getattr(f, "noshrink", False) else shrink_failure(spec, f.case, f.cls)
         p = core.write_replay(pid, f.cls, [f"# oracle failure class={f.cls}: {f.detail}"] + small)
         violations.append((p, ""))
     if not new_fail and (broken or disagreements):
@@ -166,6 +179,7 @@ def main(spec, tier, seed):
                traces_validated_against_impl=evaluations - len(disagreements),
                disagreements=len(disagreements), oracle_failures=len(failures),
                known_findings_replayed=[k["id"] for k in known], searched=searched, notes=notes)
+    cov.update(extra_cov)
     core.write_evidence(pid, dict(property_id=pid, tier=tier, seed=seed, level=level, coverage=cov,
                                   assumptions=spec.assumptions, wall_s=round(time.time() - t0, 2), violations=len(violations)))
     for p, suffix in violations:
